@@ -8,7 +8,7 @@ from .values import (Sym, Ref, ListV, DictV, ObjV, SliceV, FuncV, Builtin, Class
                      str_term, is_int, SORT_OF_TAG, SEQ_OF_TAG)
 
 BITOR = z3.Function("BITOR", T.I, T.I, T.I)
-BUILTINS = {"super", "len", "min", "max", "sum", "all", "any", "sorted", "int", "ord", "isinstance", "slice", "list", "tuple",
+BUILTINS = {"super", "len", "min", "max", "sum", "all", "any", "sorted", "int", "ord", "isinstance", "issubclass", "slice", "list", "tuple",
             "dict", "range", "zip", "enumerate", "chain", "str", "repr", "hash", "cast", "bool", "type", "getattr",
             "hasattr", "chr", "abs", "print", "set", "iter", "next"}
 EXC_NAMES = {"IndexError", "NotImplementedError", "ValueError", "TypeError", "Exception", "KeyError", "AssertionError",
